@@ -119,6 +119,11 @@ def empty(
     if random_exit:
         exit_y = rng.integers(1, shape.height - 2, endpoint=True)
         exit_x = rng.integers(1, shape.width - 2, endpoint=True)
+
+        # the non-random agent starts at (1, 1), which cannot also be the exit
+        while not random_agent and (exit_y, exit_x) == (1, 1):
+            exit_y = rng.integers(1, shape.height - 2, endpoint=True)
+            exit_x = rng.integers(1, shape.width - 2, endpoint=True)
     else:
         exit_y = shape.height - 2
         exit_x = shape.width - 2
